@@ -37,7 +37,7 @@ C18_CONFIGS = [(1, 0, 0, 0), (2, 1, 11, 3), (16, 2, 12, 5), (5, 3, 13, 0), (3, 1
 def c18_jobs():
     out = []
     for k, (thr, cs, ps, dl) in enumerate(C18_CONFIGS):
-        out.append({"name": "cfg%d" % k, "mode": "engine", "n": (48, 1600), "shards": 2 if k >= 6 else 3,
+        out.append({"name": "cfg%d" % k, "mode": "engine", "n": (96, 1600), "shards": 2 if k >= 6 else 3,
                     "args": {"profile": "allops", "rule": "any", "capshift": cs, "permsalt": ps, "delay": dl, "hooktrace": 1, "fulldigests": 1},
                     "env": {"RAYON_NUM_THREADS": str(thr)}, "config": {"RAYON_NUM_THREADS": thr, "capshift": cs, "permsalt": ps, "delay_seed": dl},
                     "tier_min": "quick" if k < 6 else "thorough"})
@@ -51,8 +51,8 @@ CHECKS = {
                 "delivered to fresh observers by meld into an empty replica (b), file copy with one refresh per file (c), random batches (d), copy-all then open (e), (c)/(e) under permuted listings (f), and a random partition between two empty replicas that then "
                 "exchange to fixpoint; every route must equal the live replica and the reference model computed from the raw files. non-trivial = >=2 commits, some object had >=2 live leaves, and some route delivered a block before one of its parents or packs." + DISTINCT,
         "assumptions": ASSUME_COMMON + ["array order is compared between replicas/routes, not against a model of the merge"],
-        "jobs": [mode("routes-conflict", "c01", (640, 24000), args={"profile": "conflict"}), mode("routes-graph", "c01", (320, 12000), args={"profile": "graph"}),
-                 mode("routes-lowlevel", "c01", (160, 6000), args={"profile": "lowlevel"})],
+        "jobs": [mode("routes-conflict", "c01", (1280, 24000), args={"profile": "conflict"}), mode("routes-graph", "c01", (640, 12000), args={"profile": "graph"}),
+                 mode("routes-lowlevel", "c01", (320, 6000), args={"profile": "lowlevel"})],
     },
     "C02": {
         "level": "exploration", "floor": 10,
@@ -60,15 +60,15 @@ CHECKS = {
                 "per-block status (hook) == membership in the reference model's causally complete closure, objects/winners/conflicts/heads == reference(closure), incremental state == fresh Melda::new on the same storage; after the last file == the source replica. "
                 "Engine histories with partial file copies add status-vs-closure checks after every op. non-trivial = some prefix held back a block that a later prefix applied." + DISTINCT,
         "assumptions": ASSUME_COMMON,
-        "jobs": [mode("delivery-conflict", "c02", (160, 6000), args={"profile": "conflict", "steps": 36}), mode("delivery-graph", "c02", (96, 4000), args={"profile": "graph", "steps": 40}),
-                 engine("partial-copies", "graph", "C02", (640, 30000))],
+        "jobs": [mode("delivery-conflict", "c02", (480, 6000), args={"profile": "conflict", "steps": 36}), mode("delivery-graph", "c02", (288, 4000), args={"profile": "graph", "steps": 40}),
+                 engine("partial-copies", "graph", "C02", (1280, 30000))],
     },
     "C03": {
         "level": "exploration", "floor": 20,
         "rule": "engine histories (profiles content/general/lowlevel/long): after every commit -> Some on a replica that is not behind, a fresh Melda::new on the same storage must show identical objects/winners/conflicts/revision sets/document/heads/blocks; "
                 "reopen ops compare with the last clean state. non-trivial = the history committed >=2 revisions of one object in one commit, or its first commit carried an update record." + DISTINCT,
         "assumptions": ASSUME_COMMON,
-        "jobs": [engine("content", "content", "C03", (960, 60000)), engine("general", "general", "C03", (480, 30000)), engine("lowlevel", "lowlevel", "C03", (240, 12000)), engine("long", "long", "C03", (48, 1600))],
+        "jobs": [engine("content", "content", "C03", (1600, 60000)), engine("general", "general", "C03", (800, 30000)), engine("lowlevel", "lowlevel", "C03", (240, 12000)), engine("long", "long", "C03", (48, 1600))],
     },
     "C04": {
         "level": "exploration", "floor": 20,
@@ -77,7 +77,7 @@ CHECKS = {
                 "Generators: hostile strings/ids/numbers, objects moving between arrays, flattened keys appearing/disappearing/changing kind, reverts to older documents. One dedicated case exercises known finding F10. "
                 "non-trivial = >=2 exact read-backs from a state with history and >=1 meld." + DISTINCT,
         "assumptions": ASSUME_COMMON + ["'!'-leading identifiers are generated for array elements only; the single-object shape is the dedicated F10 case"],
-        "jobs": [engine("kind", "kind", "C04", (960, 60000)), engine("general", "general", "C04", (480, 30000)), engine("conflict", "conflict", "C04", (480, 30000)), engine("lowlevel", "lowlevel", "C04", (240, 12000)),
+        "jobs": [engine("kind", "kind", "C04", (1280, 60000)), engine("general", "general", "C04", (480, 30000)), engine("conflict", "conflict", "C04", (480, 30000)), engine("lowlevel", "lowlevel", "C04", (240, 12000)),
                  mode("f10", "c04f10", (1, 1), shards=1)],
     },
     "C05": {
@@ -87,7 +87,7 @@ CHECKS = {
                 "system: in every observation of every history, winner/conflicting/in_conflict == the rule applied to the library's own revision sets and to the trees parsed from the raw block files. "
                 "non-trivial (unit) = >=2 live leaves, a marker, an index >=10 or a dangling subtree; (system) = >=2 live leaves seen or an index >= 10." + DISTINCT,
         "assumptions": ASSUME_COMMON,
-        "jobs": [mode("trees", "c05unit", (24000, 2400000)), mode("order", "c19unit", (64, 3200)), engine("conflict", "conflict", "C05", (640, 30000)), engine("long", "long", "C05", (64, 3200))],
+        "jobs": [mode("trees", "c05unit", (40000, 2400000)), mode("order", "c19unit", (64, 3200)), engine("conflict", "conflict", "C05", (640, 30000)), engine("long", "long", "C05", (64, 3200))],
     },
     "C06": {
         "level": "exploration", "floor": 50,
@@ -95,7 +95,7 @@ CHECKS = {
                 "merged order kept when the common elements agree. system: 2-3 replicas branch from a common commit, edit two flattened arrays concurrently (insert/remove/reorder/move between arrays/modify), sync; with leaf orders from the hook: every non-deleted id of some live leaf "
                 "occurs exactly once in the whole document, deleted ids nowhere, the winner's order kept, both orders kept for two compatible leaves. non-trivial (system) = >=2 live leaves on an array." + DISTINCT,
         "assumptions": ASSUME_COMMON,
-        "jobs": [mode("pairs", "c06unit", (326, 1957)), mode("merges", "c06sys", (6400, 400000))],
+        "jobs": [mode("pairs", "c06unit", (326, 1957)), mode("merges", "c06sys", (64000, 400000))],
     },
     "C07": {
         "level": "exploration", "floor": 20,
@@ -103,7 +103,7 @@ CHECKS = {
                 "a chosen deletion makes the object deleted and absent from the document; choosing the winner leaves the document unchanged; for arrays the chosen leaf's surviving elements keep their order. Each fork commits and a fresh replica that melds it must show the same state; "
                 "two forks that chose different leaves exchange and must converge. In-history resolutions add the same checks. non-trivial = a leaf set of >=3, a deleted leaf chosen, or an array descriptor resolved." + DISTINCT,
         "assumptions": ASSUME_COMMON + ["the merged order produced by resolving an array is not modelled; only the clauses the property states are asserted"],
-        "jobs": [mode("forks", "c07", (480, 24000), args={"profile": "conflict"}), mode("forks-lowlevel", "c07", (160, 8000), args={"profile": "lowlevel"}), engine("inline", "conflict", "C07", (480, 24000))],
+        "jobs": [mode("forks", "c07", (960, 24000), args={"profile": "conflict"}), mode("forks-lowlevel", "c07", (160, 8000), args={"profile": "lowlevel"}), engine("inline", "conflict", "C07", (800, 24000))],
     },
     "C08": {
         "level": "exploration", "floor": 20,
@@ -123,7 +123,7 @@ CHECKS = {
                 "state digests and the same reopened final states as the uninterrupted twin; runs whose fault hit a meld must still reopen to the reference state of their storage. Ordering (pack before block, local writer) is checked on every commit of every engine history, where 6% of the commits also suffer one injected write failure (staging and document must survive, heads must not move). "
                 "non-trivial = faults hit both a pack write and a block write of a commit. distinct = write pattern of the history.",
         "assumptions": ASSUME_COMMON + ["each item write is atomic (fully present or absent), as the property assumes; torn files are C10 damage", "meld copies blocks before packs on the unchanged tree; the property covers that by 'blocks whose dependencies did not arrive are ignored', which the crash monitor decides"],
-        "jobs": [mode("faults", "c09", (160, 6000)), engine("ordering", "general", "any", (320, 12000))],
+        "jobs": [mode("faults", "c09", (256, 6000)), engine("ordering", "general", "any", (320, 12000))],
     },
     "C10": {
         "level": "fault_enumeration", "floor": 10,
@@ -131,35 +131,35 @@ CHECKS = {
                 "by two routes (open fresh; refresh on a replica that had loaded an intact prefix). The call must return an error, or the state must equal the reference model of the intact causally complete subset and a replica opened on the intact subset, never panic, and every value returned must hash to the digest in its revision id. "
                 "live corruption: bits of an already indexed pack are flipped behind the adapter with MELDA_DATA_CACHE_CAP=1; get_value must be Err or exactly the recorded value. damage between refreshes: a pack is damaged in place after it was indexed and before a held-back block that names it becomes deliverable; that block must never be applied. non-trivial = damage hit an item other blocks depend on.",
         "assumptions": ASSUME_COMMON + ["no attempt is made to forge an item whose damaged bytes still hash to its name"],
-        "jobs": [mode("damage", "c10", (160, 4000), args={"profile": "conflict"}), mode("damage-dense", "c10", (0, 400), args={"profile": "conflict", "dense": 1}, tier="thorough")],
+        "jobs": [mode("damage", "c10", (1280, 8000), args={"profile": "conflict"}), mode("damage-dense", "c10", (0, 400), args={"profile": "conflict", "dense": 1}, tier="thorough")],
     },
     "C11": {
         "level": "exploration", "floor": 20,
         "rule": "online monitor on the instrumented adapter after every operation on every replica: each key is <sha256(bytes)>.pack or <i>-<sha256(bytes)>.delta with i = 1 + max parent index parsed from the bytes; a write to an existing key carries identical bytes; a full scan finds every key seen before with the same hash; "
                 "one key has one hash on all replicas (meld's parse-and-reserialise is checked byte for byte). commit(info) draws hostile metadata (nested, 1e300, -0.0, 5e-324, u64::MAX, escapes, control/non-ASCII, 300 keys, keys named like block fields). non-trivial = >=1 meld and >=2 commits." + DISTINCT,
         "assumptions": ASSUME_COMMON,
-        "jobs": [engine("general", "general", "C11", (800, 40000)), engine("conflict", "conflict", "C11", (480, 24000)), engine("graph", "graph", "C11", (480, 24000))],
+        "jobs": [engine("general", "general", "C11", (1280, 40000)), engine("conflict", "conflict", "C11", (480, 24000)), engine("graph", "graph", "C11", (480, 24000))],
     },
     "C12": {
         "level": "exploration", "floor": 20,
         "rule": "serialised read() before vs after commit (incl. its automatic array resolution), stage_full_snapshot, meld alone, and refresh/reload on a replica that is not behind and has nothing staged (for these also full state); a refused refresh/reload must leave everything untouched. "
                 "Histories are conflict-heavy with elements removed on one branch and kept on another, staged changes present. non-trivial = a commit or snapshot ran with >=1 flattened array in conflict." + DISTINCT,
         "assumptions": ASSUME_COMMON,
-        "jobs": [engine("maint", "maint", "C12", (960, 60000)), engine("conflict", "conflict", "C12", (480, 30000)), engine("lowlevel", "lowlevel", "C12", (320, 16000))],
+        "jobs": [engine("maint", "maint", "C12", (1600, 60000)), engine("conflict", "conflict", "C12", (480, 30000)), engine("lowlevel", "lowlevel", "C12", (320, 16000))],
     },
     "C13": {
         "level": "exploration", "floor": 20,
         "rule": "at each commit -> Some(A): |A| = 1, the adapter log shows exactly one new block, its parsed parents == the heads observed just before, index > every parent's, heads after == A, info as passed. At every observation: applied set (hook) ancestor-closed, heads == applied blocks not named as parent by an applied block "
                 "== reference model heads; get_delta's info/parents/packs == what the reference parses from the raw block on every replica holding it. Branching histories with 3-4 replicas, merges of several heads, commits after time travel, partial delivery. non-trivial = a commit had >=2 parents." + DISTINCT,
         "assumptions": ASSUME_COMMON,
-        "jobs": [engine("graph", "graph", "C13", (960, 60000)), engine("conflict", "conflict", "C13", (480, 30000))],
+        "jobs": [engine("graph", "graph", "C13", (1600, 60000)), engine("conflict", "conflict", "C13", (480, 30000))],
     },
     "C14": {
         "level": "exploration", "floor": 20,
         "rule": "every replica records (heads -> state) whenever it is clean; reload_until(H) for a recorded H must show that state, heads == H, objects/winners == the reference model restricted to H's ancestors, and Melda::new_until must agree; reload() afterwards returns to the latest state; "
                 "replicas may also stay in the past and commit from there. After every op 5 random (object, revision) pairs are looked up: value and parent must equal the first recorded ones and the value must hash to the digest in the revision id. non-trivial = >=1 travel and (a multi-head target or >=5 commits)." + DISTINCT,
         "assumptions": ASSUME_COMMON,
-        "jobs": [engine("graph", "graph", "C14", (960, 60000)), engine("general", "general", "C14", (320, 20000)), engine("long", "long", "C14", (48, 1600))],
+        "jobs": [engine("graph", "graph", "C14", (1600, 60000)), engine("general", "general", "C14", (320, 20000)), engine("long", "long", "C14", (48, 1600))],
     },
     "C15": {
         "level": "exploration", "floor": 20,
@@ -167,7 +167,7 @@ CHECKS = {
                 "refresh/reload/reload_until with staged revisions must refuse and change nothing (a replica holding only unreferenced staged objects may refresh but must not drop them). Staged sets include creations, update chains, deletions, resurrections, array patches, resolutions, snapshots and low-level object calls. "
                 "non-trivial = a round trip with >=3 staged revisions." + DISTINCT,
         "assumptions": ASSUME_COMMON,
-        "jobs": [engine("stage", "stage", "C15", (960, 60000)), engine("lowlevel", "lowlevel", "C15", (480, 30000))],
+        "jobs": [engine("stage", "stage", "C15", (1600, 60000)), engine("lowlevel", "lowlevel", "C15", (480, 30000))],
     },
     "C16": {
         "level": "exploration", "floor": 50,
@@ -176,7 +176,7 @@ CHECKS = {
                 "while the arrays have two live leaves), under MELDA_ARRAYDESCRIPTORS_CACHE_CAP in {1,2,3,16}: read() == last submitted (when no array is in conflict) and, queried in random order, verif_array_order(rev) == the array submitted when rev was created, for every revision ever created on either replica. "
                 "non-trivial (system) = chain length >=20 with >=1 reopen." + DISTINCT,
         "assumptions": ASSUME_COMMON,
-        "jobs": [mode("pairs", "c16unit", (364, 5461)), mode("chains", "c16chain", (320, 16000))],
+        "jobs": [mode("pairs", "c16unit", (364, 5461)), mode("chains", "c16chain", (3200, 32000))],
     },
     "C17": {
         "level": "exploration", "floor": 20, "post": "post_c17",
@@ -184,7 +184,7 @@ CHECKS = {
                 "compared with a first-write-wins map; persistent backends are dropped and reopened mid-sequence and at the end. replica: the same op script (engine 'general') runs over all 12 backends; the per-op state/graph digest sequence must equal the memory baseline, including reopen on a new adapter object. "
                 "non-trivial = >=5 keys (contract) / script with >=2 commits compared on all backends." + DISTINCT,
         "assumptions": ASSUME_COMMON + ["keys are item-like names: ASCII, >= 2 characters, no '/', not containing '.flate'/'.brotli'"],
-        "jobs": [mode("contract", "c17contract", (480, 24000), args={"ops": 300})] +
+        "jobs": [mode("contract", "c17contract", (360, 24000), args={"ops": 300})] +
                 [engine("replica-" + b.replace("+", "-"), "general", "any", (32, 1200), args={"backend": b, "fulldigests": 1, "steps": 30}, shards=2, env={"RAYON_NUM_THREADS": "2"}, env_by_shard=None) for b in BACKENDS] +
                 [{"name": "memcheck-sqlite", "external": "memcheck", "tier": "thorough"}],
     },
@@ -202,7 +202,7 @@ CHECKS = {
                 "formula (index+1, digest, first 7 hex of sha256(parent text)) and depend only on (digest, parent text); for all pairs and triples: exactly one of <,==,>, == iff equal strings, transitivity. system: two replicas in the same state apply the same updates independently -> identical revision sets; after exchanging their "
                 "(different) blocks nothing is in conflict and no leaf is added. Every revision string any history exposes must round-trip. non-trivial = pool with index >=10 and a marker / twin history with two heads after exchange." + DISTINCT,
         "assumptions": ASSUME_COMMON,
-        "jobs": [mode("pools", "c19unit", (160, 16000)), mode("twins", "c19twins", (1600, 160000)), engine("roundtrip", "general", "any", (320, 16000))],
+        "jobs": [mode("pools", "c19unit", (480, 16000)), mode("twins", "c19twins", (6400, 160000)), engine("roundtrip", "general", "any", (320, 16000))],
     },
 }
 
